@@ -73,7 +73,7 @@ def configJson (m : Model Float) : Json :=
     ("auxdata", putFs (auxData m.ps)), ("auxdata_order", putSs (auxOrder m.ps)),
     ("nmaindata", cfg.nmain), ("nauxdata", (auxData m.ps).length),
     ("poi_index", match m.poiIndex with | some i => (i : Json) | none => Json.null),
-    ("wf", Json.mkObj [("histoBlocksOK", histoBlocksOK m.spec m.cfg), ("paramsetsOK", paramsetsOK m), ("readsBelow", readsBelow m m.npars), ("binwiseOK", binwiseOK m),
+    ("wf", Json.mkObj [("histoBlocksOK", histoBlocksOK m.spec m.cfg), ("paramsetsOK", paramsetsOK m), ("readsBelow", readsBelow m m.npars), ("constraintReadsBelow", constraintReadsBelow m m.npars), ("binwiseOK", binwiseOK m),
                        ("singleLumi", singleLumi m), ("singularCovers", singularCovers m),
                        ("clipSampleNonPos", clipSampleNonPos m)]),
     ("paramsets", Json.arr (m.ps.map fun p => Json.mkObj [
